@@ -635,6 +635,9 @@ def replay(ctx, obj):
     v = validate(ctx, [rec])
     ctx.cov["states"] = 1
     for clause, item, cls in sorted(v[1][0]):
+        if clause == "guard":
+            print("the recorded behaviour is refused by the specification's guards (action %s): it says nothing about cffi" % item)
+            continue
         print("clause %s item %s class %r" % (clause, item, cls))
         ctx.violation(cls if cls else "%s:unexplained" % clause, "%s [%s]" % (CLAUSE.get(clause, clause), item), rp)
     print("replayed: %s" % ("still violated" if v[1][0] else "accepted by the specification"))
